@@ -51,6 +51,11 @@ func (ic *ImageConfiguration) ProbeVCSUrl(ctx context.Context, imageConfigPath s
 
 // Parse a configuration blob into an ImageConfiguration struct.
 func (ic *ImageConfiguration) parse(ctx context.Context, configData []byte, includePaths []string, configHasher hash.Hash) error {
+	return ic.parseIncluding(ctx, configData, includePaths, configHasher, nil)
+}
+
+// parseIncluding is parse with the chain of include files that led here, to refuse include cycles.
+func (ic *ImageConfiguration) parseIncluding(ctx context.Context, configData []byte, includePaths []string, configHasher hash.Hash, including []string) error {
 	log := clog.FromContext(ctx)
 	configHasher.Write(configData)
 	dec := yaml.NewDecoder(strings.NewReader(string(configData)))
@@ -62,9 +67,17 @@ func (ic *ImageConfiguration) parse(ctx context.Context, configData []byte, incl
 	if ic.Include != "" {
 		log.Infof("including %s for configuration", ic.Include)
 
+		if slices.Contains(including, ic.Include) {
+			return fmt.Errorf("include cycle: %s is already being included (%s)", ic.Include, strings.Join(including, " -> "))
+		}
+
 		included := &ImageConfiguration{}
 
-		if err := included.Load(ctx, ic.Include, includePaths, configHasher); err != nil {
+		data, err := included.readLocal(ic.Include, includePaths)
+		if err != nil {
+			return fmt.Errorf("failed to read include file: %w", err)
+		}
+		if err := included.parseIncluding(ctx, data, includePaths, configHasher, append(including, ic.Include)); err != nil {
 			return fmt.Errorf("failed to read include file: %w", err)
 		}
 
